@@ -4,6 +4,7 @@
 SRC="$1"; J="${2:-6}"
 ROOT="$(cd "$(dirname "$0")/.." && pwd)"; cd "$ROOT"; ./setup.sh >/dev/null || exit 2
 export ROOT
+case "$SRC" in /*) ;; *) SRC="$ROOT/$SRC";; esac
 PROPS=$(python3 -c "import json;print(' '.join(c['property_id'] for c in json.load(open('MANIFEST.json'))['checks']))")
 one() {
   d="$1"; name=$(basename "$d"); T=$(mktemp -d /tmp/vm-XXXXXX)
